@@ -419,6 +419,9 @@ KNOWN_WITNESS = {
 
 def main(tier, seed):
     rep = Report(PID, tier, seed, "proof")
+    from engine import crosscheck
+
+    crosscheck.attach(rep, seed)
     rep.assumed_contract("core field functions (magnet_cuboid_Bfield, magnet_cylinder_{axial_B,diametral_H}field, "
                          "magnet_cylinder_segment_Hfield, triangle_Bfield, dipole_Hfield, current_circle_Hfield, "
                          "current_polyline_Hfield) are row-wise functions of their row arguments (C06 obligation); their values are arbitrary")
